@@ -88,13 +88,17 @@ Proof.
 Qed.
 
 (* what the induction over binding programs establishes *)
-Definition run_ok (p : prog) : Prop :=
+(* c: the head declarations of p are catch parameters (lexical names of the scope, which adopt the earlier uses of
+   the pattern) rather than function parameters (var-like names that no default value has mentioned yet) *)
+Definition hk (c : bool) (pr : promise) (x : Z) : Prop := if c then In x (plex pr) else In x (pvar pr).
+
+Definition run_ok_gen (c : bool) (p : prog) : Prop :=
   forall a fr pr rest,
     AInv a ((fr, pr) :: rest) -> NoDup (lexdecls p) ->
     (forall x, In x (lexdecls p) -> In x (plex pr) /\ ~ In x (dnames fr)) ->
     (forall x, In x (vardecls p) -> var_ok x ((fr, pr) :: rest)) ->
     NoDup (headdecls p) ->
-    (forall x, In x (headdecls p) -> In x (pvar pr) /\ ~ In x (dnames fr) /\ ~ In (UPend x) (fund fr)) ->
+    (forall x, In x (headdecls p) -> hk c pr x /\ ~ In x (dnames fr) /\ (c = false -> ~ In (UPend x) (fund fr))) ->
     spec_ok p = true ->
     exists a' fr' rest',
       arun a (linearise p) = ARun a' /\ AInv a' ((fr', pr) :: rest') /\
@@ -109,6 +113,14 @@ Definition run_ok (p : prog) : Prop :=
           ++ map (final (env_of ((fr, pr) :: rest))) (alog a) /\
       anext a' = snd (resolve_m (env_of ((fr, pr) :: rest)) (func_of ((fr, pr) :: rest)) (fid fr) false (anext a) p).
 
+Notation run_ok := (run_ok_gen false).
+
+Lemma run_ok_gen_nil c c' p : headdecls p = [] -> run_ok_gen c p -> run_ok_gen c' p.
+Proof.
+  intros H0 H a fr pr rest A Hnd Hlex Hvar Hndh Hhead Hok. apply (H a fr pr rest A Hnd Hlex Hvar Hndh); [|exact Hok].
+  rewrite H0. intros x [].
+Qed.
+
 Lemma grow_shape L V z z' : grow L V z z' -> shape z' = shape z.
 Proof. intros [H _]. exact H. Qed.
 
@@ -119,7 +131,7 @@ Lemma grow_top L V fr pr rest fr' rest' :
 Proof. intros [_ H]. exact H. Qed.
 
 (* ---- Ref ------------------------------------------------------------------------------------------------------- *)
-Lemma run_ok_ref x k : ~ In x (headdecls k) -> run_ok k -> run_ok (Ref x k).
+Lemma run_ok_ref c x k : (c = false -> ~ In x (headdecls k)) -> run_ok_gen c k -> run_ok_gen c (Ref x k).
 Proof.
   intros Hxk IH a fr pr rest A Hnd Hlex Hvar Hndh Hhead Hok.
   destruct (L_use a fr pr rest x A) as (a1 & fr1 & L & H1 & A1 & E1 & E2 & E3 & _ & E4 & E5 & E6 & E7).
@@ -130,7 +142,7 @@ Proof.
   { intros y Hy. apply (var_ok_shape y ((fr, pr) :: rest)); [symmetry; exact Hs1|apply Hvar; exact Hy]. }
   { exact Hndh. }
   { intros y Hy. destruct (Hhead y Hy) as (Q1 & Q2 & Q3). split; [exact Q1|]. split; [rewrite Edn; exact Q2|].
-    intros Hi. destruct (E7 _ Hi) as [Hi'|Hi']; [contradiction|]. injection Hi' as ->. contradiction. }
+    intros Hc Hi. destruct (E7 _ Hi) as [Hi'|Hi']; [exact (Q3 Hc Hi')|]. injection Hi' as ->. exact (Hxk Hc Hy). }
   { exact Hok. }
   rewrite (env_of_shape _ _ Hs1), (func_of_shape _ _ Hs1), E1, E5 in F, N.
   exists a', fr', rest'. split.
@@ -190,7 +202,7 @@ Proof.
   intros IH a fr pr rest A Hnd Hlex Hvar Hndh Hhead Hok.
   cbn [lexdecls is_lex app] in Hnd, Hlex. cbn [vardecls is_var app] in Hvar. cbn [headdecls app] in Hndh, Hhead.
   inversion Hndh as [|? ? Hxk Hndk]; subst.
-  destruct (Hhead x (or_introl eq_refl)) as (Hxp & Hxn & Hxu).
+  destruct (Hhead x (or_introl eq_refl)) as (Hxp & Hxn & Hxu). cbn [hk] in Hxp. specialize (Hxu eq_refl).
   destruct (L_decl_top a fr pr rest ArgumentDecl x A (or_intror (or_introl eq_refl)) Hxn) as (a1 & fr1 & H1 & A1 & E1 & E2 & E3 & E4 & E5 & E6).
   { unfold pnames. apply in_app_iff. left. exact Hxp. } { intros H. exfalso. apply H. reflexivity. } { intros _. exact Hxu. }
   assert (Hs1 : shape ((fr1, pr) :: rest) = shape ((fr, pr) :: rest)) by (cbn; rewrite E1, E2; reflexivity).
@@ -202,12 +214,55 @@ Proof.
   { exact Hndk. }
   { intros y Hy. destruct (Hhead y (or_intror Hy)) as (Q1 & Q2 & Q3). split; [exact Q1|]. split.
     - rewrite E3. intros Hi. apply in_app_last in Hi. destruct Hi as [Hi| ->]; contradiction.
-    - intros Hi. apply Q3. apply E4. exact Hi. }
+    - intros Hc Hi. apply (Q3 Hc). apply E4. exact Hi. }
   { exact Hok. }
   rewrite (env_of_shape _ _ Hs1), (func_of_shape _ _ Hs1), E1, E5 in F, N.
   destruct (grow_top _ _ _ _ _ _ _ G) as (Gi & _ & _).
   exists a', fr', rest'. split.
   { cbn [linearise arun astep decl_code]. unfold ArgumentDecl, NoDecl. cbn [Z.eqb]. fold ArgumentDecl. rewrite H1. exact R1. }
+  split; [exact A'|]. split.
+  { cbn [lexdecls vardecls headdecls is_lex is_var app].
+    apply (grow_weaken ([x] ++ lexdecls k ++ headdecls k) ([] ++ vardecls k)); [|apply incl_refl|].
+    { intros y Hy. cbn [app] in Hy. destruct Hy as [<-|Hy]; [apply in_app_iff; right; left; reflexivity|].
+      apply in_app_iff in Hy. apply in_app_iff. destruct Hy as [Hy|Hy]; [left; exact Hy|right; right; exact Hy]. }
+    eapply grow_trans; [|exact G]. split; [exact Hs1|]. unfold dn. cbn [fst]. rewrite E3.
+    split; [intros y Hy; apply in_app_iff; left; exact Hy|]. split; [|apply grow_rest_refl].
+    intros y Hy. apply in_app_last in Hy. destruct Hy as [Hy| ->]; [left; exact Hy|right; left; left; reflexivity]. }
+  split; [exact P1|]. split; [exact P2|]. split.
+  { intros y [<-|Hy]; [apply Gi; rewrite E3; apply in_app_last; right; reflexivity|apply P3; exact Hy]. }
+  split.
+  { intros y Hy. cbn [allnames]. destruct (P4 y Hy) as [H|H]; [left; apply E4; exact H|right; right; exact H]. }
+  split.
+  { intros y Hy. apply E4. apply P5. exact Hy. }
+  cbn [resolve_m is_var]. destruct (resolve_m (env_of ((fr, pr) :: rest)) (func_of ((fr, pr) :: rest)) (fid fr) false (anext a) k) as [r n1].
+  cbn [fst snd] in *. split; [|exact N].
+  rewrite F, E6. cbn [map rev]. rewrite <- app_assoc. reflexivity.
+Qed.
+
+(* a catch parameter: a lexical name of the catch scope; Declare adopts the uses the pattern has made of it *)
+Lemma run_ok_catchparam x k : ~ In x (lexdecls k) -> run_ok_gen true k -> run_ok_gen true (Decl DCatch x k).
+Proof.
+  intros Hxl IH a fr pr rest A Hnd Hlex Hvar Hndh Hhead Hok.
+  cbn [lexdecls is_lex app] in Hnd, Hlex. cbn [vardecls is_var app] in Hvar. cbn [headdecls app] in Hndh, Hhead.
+  inversion Hndh as [|? ? Hxk Hndk]; subst.
+  destruct (Hhead x (or_introl eq_refl)) as (Hxp & Hxn & _). cbn [hk] in Hxp.
+  destruct (L_decl_top a fr pr rest CatchDecl x A (or_intror (or_intror (or_introl eq_refl))) Hxn) as (a1 & fr1 & H1 & A1 & E1 & E2 & E3 & E4 & E5 & E6).
+  { unfold pnames. apply in_app_iff. right. exact Hxp. } { intros _. exact Hxp. } { discriminate. }
+  assert (Hs1 : shape ((fr1, pr) :: rest) = shape ((fr, pr) :: rest)) by (cbn; rewrite E1, E2; reflexivity).
+  pose proof (A_frames _ _ A) as [Kfr _].
+  destruct (IH a1 fr1 pr rest A1 Hnd) as (a' & fr' & rest' & R1 & A' & G & P1 & P2 & P3 & P4 & P5 & F & N).
+  { intros y Hy. destruct (Hlex y Hy) as [Hyp Hyn]. split; [exact Hyp|]. rewrite E3. intros Hi. apply in_app_last in Hi.
+    destruct Hi as [Hi| ->]; [contradiction|]. exact (Hxl Hy). }
+  { intros y Hy. apply (var_ok_shape y ((fr, pr) :: rest)); [symmetry; exact Hs1|apply Hvar; exact Hy]. }
+  { exact Hndk. }
+  { intros y Hy. destruct (Hhead y (or_intror Hy)) as (Q1 & Q2 & Q3). split; [exact Q1|]. split.
+    - rewrite E3. intros Hi. apply in_app_last in Hi. destruct Hi as [Hi| ->]; contradiction.
+    - discriminate. }
+  { exact Hok. }
+  rewrite (env_of_shape _ _ Hs1), (func_of_shape _ _ Hs1), E1, E5 in F, N.
+  destruct (grow_top _ _ _ _ _ _ _ G) as (Gi & _ & _).
+  exists a', fr', rest'. split.
+  { cbn [linearise arun astep decl_code]. unfold CatchDecl, NoDecl in *. cbn [Z.eqb]. rewrite H1. exact R1. }
   split; [exact A'|]. split.
   { cbn [lexdecls vardecls headdecls is_lex is_var app].
     apply (grow_weaken ([x] ++ lexdecls k ++ headdecls k) ([] ++ vardecls k)); [|apply incl_refl|].
